@@ -26,6 +26,72 @@ def is_opaque(x):
     return type(x).__name__.startswith('Stub_')
 
 
+# ---- sequences of strings.  Natively plain Python; in proofs `prefix_join` is a measure of the list
+# (pyvc.texts: an uninterpreted prefix function with its defining equations instantiated where needed).
+
+def prefix_join(xs, i):
+    """xs[0] + ... + xs[i-1]"""
+    return ''.join(xs[:i])
+
+
+def join_of(xs):
+    return prefix_join(xs, len(xs))
+
+
+def is_find(i, s, sub):
+    """i == s.find(sub)   (in proofs: through the shared concatenation pieces of s)"""
+    return i == s.find(sub)
+
+
+from pyvc.replaylib import PeekIter as ListIter      # noqa: E402  (a list iterator that can be inspected)
+
+
+def peek(it):
+    """the items an iterator has left, without consuming them (spec level only)"""
+    if isinstance(it, ListIter):
+        return it.xs[it.pos:]
+    if isinstance(it, (list, tuple)):
+        return list(it)
+    raise TypeError('peek: not a spec-level iterator: %r' % (it,))
+
+
+def all_chars(s, pred):
+    """every character of the string s satisfies pred (a pure predicate on one-character strings).
+    In proofs: a measure over string concatenation (pyvc.charclass)."""
+    return all(pred(c) for c in s)
+
+
+# ---- prefix sums / counts over sequences.  Natively plain sums; in proofs an uninterpreted prefix
+# function per (sequence, f) that is unfolded one step at the index it is asked for
+# (pyvc.models.q_sum_prefix / q_count_prefix).  `f` / `pred` must be module-level functions.
+
+def sum_prefix(xs, k, f, *extra):
+    """f(xs[0], *extra) + ... + f(xs[k-1], *extra)"""
+    return sum(f(xs[j], *extra) for j in range(k))
+
+
+def count_prefix(xs, k, pred, *extra):
+    """number of j < k with pred(xs[j], *extra)"""
+    return sum(1 for j in range(k) if pred(xs[j], *extra))
+
+
+def nat_of_str(s):
+    """the number denoted by a non-empty string of ASCII digits, else -1 (SMT-LIB str.to_int)"""
+    return int(s) if s != '' and all(c in '0123456789' for c in s) else -1
+
+
+def prefix_fold(f, init, xs, i, *extra):
+    """f(...f(f(init, xs[0]), xs[1])..., xs[i-1]): the state after the first i elements of xs
+    (f is called as f(state, x, *extra)).
+    In proofs this is a ghost history function with its defining equations instantiated at the
+    indices the clauses mention (pyvc.models.m_prefix_fold); f must be a pure module-level function
+    that does not mutate its arguments."""
+    acc = init
+    for j in range(i):
+        acc = f(acc, xs[j], *extra)
+    return acc
+
+
 def items_of(it):
     """the (remaining) items of an iterator or sequence, as a list"""
     return list(it)
@@ -62,3 +128,46 @@ def all_keys(*dicts):
             if k not in out:
                 out.append(k)
     return out
+def keys_subset(m1, m2):
+    """every key of the dict m1 is a key of m2"""
+    return all(k in m2 for k in m1)
+
+
+def recursive(fn):
+    """Marks a boolean spec function that calls itself (natively: plain recursion).  In proofs its value is
+    an uninterpreted predicate of the arguments (scalars, by-id objects, maps, input lists / list attributes);
+    the defining equation is unfolded once for the arguments of every call made outside quantifier bodies."""
+    fn._pv_recursive = True
+    return fn
+
+
+def recursive_str(fn):
+    """like `recursive`, for a spec function whose value is a string"""
+    fn._pv_recursive = 'str'
+    return fn
+
+
+def recursive_int(fn):
+    """like `recursive`, for a spec function whose value is an integer"""
+    fn._pv_recursive = 'int'
+    return fn
+
+
+def forall_keys(d, pred):
+    """pred(k) for every key k of the dict d (in proofs: a universally quantified key of the symbolic map)"""
+    return all(pred(k) for k in list(d))
+
+
+def share_contracts(prop, modname, select):
+    """The contracts of another sidecar module that `select(qname)` accepts carry property `prop` as well: the
+    check of `prop` re-proves them on the current tree, so a change that breaks one of them is reported
+    under `prop` too (a property that rests on facts proved for another one).  Returns the names."""
+    import importlib
+    mod = importlib.import_module(modname)
+    names = []
+    for c in mod.M.contracts:
+        if select(c.qname) and not c.trusted:
+            c.props = tuple(sorted(set(c.props) | {prop}))
+            names.append(c.qname)
+    assert names, 'no contract of %s selected' % modname
+    return names
